@@ -120,6 +120,16 @@ pub struct Eab {
 	pub alg: String,
 }
 
+/// validating mode: the CA really fetches the proof (C20)
+#[derive(Clone, Debug, Serialize, Deserialize, PartialEq)]
+pub struct Validate {
+	/// web-server mapping: http://<identifier>/.well-known/acme-challenge/<token> is served from <http_root>/<identifier>/...
+	pub http_root: Option<String>,
+	/// where the CA reaches port 443 of the identifier: "tcp:<host>:<port>" or "unix:<dir>" (socket <dir>/tacd_<identifier>.sock)
+	pub tls: Option<String>,
+	pub patience_ms: u64,
+}
+
 #[derive(Clone, Debug, Serialize, Deserialize, PartialEq)]
 pub struct CaPlan {
 	pub seed: u64,
@@ -148,6 +158,8 @@ pub struct CaPlan {
 	pub eab_required: bool,
 	pub extra_unknown_challenge: bool,
 	pub token_len: usize,
+	#[serde(default)]
+	pub validate: Option<Validate>,
 }
 
 fn default_true() -> bool {
@@ -175,6 +187,7 @@ impl Default for CaPlan {
 			eab_required: true,
 			extra_unknown_challenge: false,
 			token_len: 43,
+			validate: None,
 		}
 	}
 }
